@@ -1,0 +1,10 @@
+//go:build verif
+
+// Verification hooks: read access to the decoded request list. Compiled only with -tags verif.
+package batched
+
+import "github.com/cloudflare/pat-go/tokens"
+
+func (r *BatchedTokenRequest) VerifRequests() []tokens.TokenRequestWithDetails {
+	return r.token_requests
+}
